@@ -53,7 +53,14 @@ func runC05(c *mon.Ctx) {
 				}
 				c.Case("redact-raw:"+string(ver)+":"+typ, map[string]any{"version": ver, "event": string(text), "lookalike_keys": lookalikes}, func() {
 					want := ref.Redact(t.Redaction, ev)
-					out, err := impl.RedactEventJSON(text)
+					gin, intact := mon.Guarded(text)
+					out, err := impl.RedactEventJSON(gin)
+					if d := intact(); d != "" {
+						c.Failf("redact:callers-buffer-written", "RedactEventJSON(v%s): %s", ver, d)
+					}
+					if err == nil {
+						c.Retain("redact", "the result of RedactEventJSON", out)
+					}
 					if err != nil {
 						if len(lookalikes) > 0 {
 							c.Failf("redact:lookalike-key:error", "RedactEventJSON(v%s) fails on an event with the extra key(s) %q: %v\n%s", ver, lookalikes, err, text)
